@@ -10,6 +10,7 @@ Line-protocol driver for C10: runs the hand model `YouVerif.C10.step` with the e
   UD a v delta del                        UpdateDelegator                                    -> ok
   CV a name op cb role mainpk blspk token stake accept comm risk status     CreateValidator  -> ok
   UV a <23 fields> n (d stake token)*     UpdateValidator(new, current)                      -> ok
+  VD a d token | DG d a amount            PartialCopy+UpdateDelegationFrom+UpdateValidator / StateDB.UpdateDelegation (sorted insert modelled) -> ok
   SR idx kind amount                      ValKindStat.AddRewards/SetRewardsResidue/ResetRewards on slot idx -> ok
   AW op dlg val rcp nonce ch coh init final fin tx     AddWithdrawRecord                     -> ok
   RW i,j,..                               RemoveWithdrawRecords                              -> ok
@@ -100,6 +101,10 @@ def parseOp : List String → Option Op
         mainPk := ← bytesOfHex? mpk, blsPk := ← bytesOfHex? bpk, token := t, stake := s, selfToken := t, selfStake := s,
         accept := ← nat? ac, comm := ← nat? cm, risk := ← nat? rk })
   | "UV" :: a :: rest => do some (.updateVal (← bytesOfHex? a) (← parseVal rest))
+  | ["VD", a, d, t] => do
+    let tok ← nat? t
+    some (.setDlg (← bytesOfHex? a) (← bytesOfHex? d) (tok / stakeUnit) tok)
+  | ["DG", d, a, amt] => do some (.delegate (← bytesOfHex? d) (← bytesOfHex? a) (← int? amt))
   | ["SR", i, k, n] => do some (.statRewards (← nat? i) (← nat? k) (← nat? n))
   | ["AW", o, d, v, r, n, c, co, i, f, fi, t] => do
     some (.addWithdraw { operator := ← bytesOfHex? o, delegator := ← bytesOfHex? d, validator := ← bytesOfHex? v, recipient := ← bytesOfHex? r,
